@@ -459,6 +459,8 @@ scpi_bool_t SCPI_ParamNumber(scpi_t * context, const scpi_choice_def_t * special
 
             break;
         default:
+            /* string, block or expression is not a number */
+            SCPI_ErrorPush(context, SCPI_ERROR_DATA_TYPE_ERROR);
             result = FALSE;
     }
 
